@@ -553,11 +553,25 @@ class WsgiApplication(HttpBase):
             if len(out_type_info) == 1:
                 p_ctx.out_object = [p_ctx.out_object]
 
-            p_ctx.transport.resp_headers, p_ctx.out_string = apply_mtom(
-                    p_ctx.transport.resp_headers, p_ctx.out_string,
-                    p_ctx.descriptor.out_message._type_info.values(),
-                    p_ctx.out_object,
-                )
+            try:
+                p_ctx.transport.resp_headers, p_ctx.out_string = apply_mtom(
+                        p_ctx.transport.resp_headers, p_ctx.out_string,
+                        p_ctx.descriptor.out_message._type_info.values(),
+                        p_ctx.out_object,
+                    )
+
+            except Exception as e:
+                # like a failure of the serializer above: answer with a fault
+                logger.exception(e)
+                p_ctx.out_error = Fault('Server',
+                                             get_fault_string_from_exception(e))
+                p_ctx.out_document = None
+                p_ctx.out_string = None
+                p_ctx.transport.resp_code = None
+                p_ctx.fire_event('method_exception_object')
+
+                return self.handle_error(p_ctx, others, p_ctx.out_error,
+                                                                 start_response)
 
         self.event_manager.fire_event('wsgi_return', p_ctx)
 
